@@ -410,9 +410,19 @@ def checkpoint_chunk(vm):
     """fetch_chunk: a downloaded 1000-header chunk is written iff its hash is the built-in checkpoint for that height."""
     env = ENV[0]
     checkpointed = vm.new_bool('height_has_checkpoint')
-    h, chunk = env.make_checkpoint(vm, checkpointed)
+    extra = vm.pick('extra_headers_appended_to_the_reply', 3)      # a server may answer with more than the 1000 headers asked for
+    h, chunk = env.make_checkpoint(vm, checkpointed, extra)
     height = 1000 + vm.new_int('offset', 0, 999)
     before = h._read(1000, 1000)
+    if extra:
+        try:
+            vm.await_(h.fetch_chunk(height))
+        except Exception:
+            pass
+        # whatever the first 1000 headers hash to, the reply as a whole is not the checkpointed chunk: nothing of it may be stored
+        if len(h) != 2000 or h._read(1000, 1000) != before:
+            return 'VIOLATION: headers from an over-long chunk reply were stored although the reply does not hash to the checkpoint'
+        return 'ok-refused'
     try:
         vm.await_(h.fetch_chunk(height))
         raised = False
@@ -458,7 +468,7 @@ class SymConnectEnv:
             return ArithUint256(0)
         return ArithUint256(vm.ite(vm.named_bool('pow_ok%d' % tok.i), 0, 2 ** 255))
 
-    def make_checkpoint(self, vm, checkpointed):
+    def make_checkpoint(self, vm, checkpointed, extra=0):
         from io import BytesIO
         from symvm.sv import SBytes, Run
         h = ConnectHeaders(':memory:')
@@ -466,7 +476,8 @@ class SymConnectEnv:
         h._size = 2000
         h.checkpoints = {1000: 'the-built-in-checkpoint'} if checkpointed else {0: 'another-height'}
         chunk = SBytes([Run('chunk', 0, 112 * 1000)])
-        h.chunk_getter = ChunkGetter({'base64': chunk})
+        reply = chunk if not extra else SBytes([Run('chunk', 0, 112 * 1000), Run('extra', 0, 112 * extra)])
+        h.chunk_getter = ChunkGetter({'base64': reply})
         return h, chunk
 
 
@@ -515,20 +526,21 @@ class NativeConnectEnv:
     def proof_of_work(self, header_hash):
         return ArithUint256(0 if self.pow.get(header_hash, True) else 2 ** 255)
 
-    def make_checkpoint(self, vm, checkpointed):
+    def make_checkpoint(self, vm, checkpointed, extra=0):
         import base64
         import zlib
         from io import BytesIO
         prev = b'\x00' * 32
         old = b''.join(self.raw(prev, GOOD_BITS, i) for i in range(2000))
         chunk = b''.join(self.raw(prev, GOOD_BITS, 7000 + i) for i in range(1000))
+        tail = b''.join(self.raw(prev, GOOD_BITS, 9000 + i) for i in range(extra))
         h = ConnectHeaders(':memory:')
         h.io = BytesIO(old)
         h._size = 2000
         good = Headers.hash_header(chunk).decode()
         h.checkpoints = {1000: good if vm.named_bool('chunk_matches_checkpoint') else 'ff' * 32} if checkpointed else {0: 'ab' * 32}
         co = zlib.compressobj(wbits=-15)
-        h.chunk_getter = ChunkGetter({'base64': base64.b64encode(co.compress(chunk) + co.flush()).decode()})
+        h.chunk_getter = ChunkGetter({'base64': base64.b64encode(co.compress(chunk + tail) + co.flush()).decode()})
         return h, chunk
 
     def cleanup(self):
@@ -568,6 +580,10 @@ def sym_setup_connect(vm, job):
         return x.as_long() if tz.is_int_value(x) else None
 
     def hash_model(vm_, a, k):
+        atoms = vm.norm_atoms(list(a[0].a)) if isinstance(a[0], SBytes) else None
+        if atoms and len(atoms) == 2 and isinstance(atoms[0], Run) and atoms[0].rid == 'chunk' and isinstance(atoms[1], Run) \
+                and atoms[1].rid == 'extra':
+            return 'hash-of-an-over-long-reply'                  # ideal hash: equals no checkpoint
         space, i = ident(a[0])
         return ChunkHashTok() if space == 'chunk' else HTok(space, i)
 
